@@ -48,7 +48,7 @@ func runC12(c *core.Ctx) {
 	o.Assumptions = []string{
 		"Keccak-256 is collision free (hashes are free constructors in the specification)",
 		"forged parts and perturbed blocks are produced the way the wire produces them: built field by field, encoded with ser and DECODED into fresh objects (Part, Block, Data, Commit cache their hashes in unexported fields)",
-		"a negative part index makes AddPart panic (no lower bound); robustness is property C16's, the class is recorded and not executed on the replayed sets",
+		"parts with a negative index are offered to a throw-away set only (robustness against them is property C16's): a panic is recorded as drift, acceptance would be a violation",
 		"Header.bloom is local to the node (never serialised, never hashed) and not a component of the block identity",
 		"Header.Hash() omits Recover and Commit.Hash() omits Commit.BlockID; both are covered by the part-set hash, which is enough for the property as stated",
 	}
@@ -60,7 +60,8 @@ func runC12(c *core.Ctx) {
 	}
 	exh1 := runParts(c)
 	exh2 := runIdent(c)
-	o.Exhaustive = exh1 && exh2
+	exh3 := runSlot(c)
+	o.Exhaustive = exh1 && exh2 && exh3
 	if c.Thorough() {
 		runModelControls(c)
 	}
@@ -258,9 +259,9 @@ func replayParts(c *core.Ctx, g *mbt.Graph, insts []pInst, cfg string) bool {
 				np++
 			}
 		}
-		c.SetExtra("negative_index_observation", fmt.Sprintf("AddPart(part with Index -1) on a throw-away set: panic in %d of %d instantiations (specification: panic, as coded)", np, len(neg)))
+		c.SetExtra("negative_index_observation", fmt.Sprintf("AddPart(part with Index -1) on a throw-away set: panic in %d of %d instantiations (specification: rejected with the index error)", np, len(neg)))
 		if np > 0 {
-			driftOnce(c, "AddPart panics on a part with a negative index (no lower index bound; robustness is property C16's) - the class is not replayed")
+			driftOnce(c, "AddPart panics on a part with a negative index (robustness is property C16's)")
 		}
 	}
 	// negative control: a corrupted expectation must be noticed
@@ -313,6 +314,95 @@ func partsControl(c *core.Ctx, g *mbt.Graph, blocks []*types.Block, blockBz [][]
 		}
 	}
 	return false
+}
+
+// ---------------------------------------------------------------------------------------
+// the proposal slot of a ConsensusState (re-targeting by a polka / a commit)
+
+func runSlot(c *core.Ctx) bool {
+	cfg := "ProposalSlot.cfg"
+	if c.Thorough() {
+		cfg = "ProposalSlotBig.cfg"
+	}
+	res := c.TLC(tlc.Options{SpecDir: c.SpecDir("BlockParts"), Module: "ProposalSlot", Config: cfg, Workers: 1, Timeout: c.MinutesT(3, 10)})
+	if res == nil {
+		return false
+	}
+	if res.Violated != "" || !res.Finished {
+		c.Infra("ProposalSlot model (%s): %s\n%s", cfg, res.Describe(), res.Tail)
+		return false
+	}
+	g, err := mbt.Load(res.Lines)
+	if err != nil {
+		c.Infra("ProposalSlot edge load: %v", err)
+		return false
+	}
+	kinds := g.ActionKinds("op")
+	for _, op := range []string{"propose", "part", "otherpart", "polka", "commit"} {
+		if kinds[op] == 0 {
+			c.Infra("ProposalSlot model: no %q transition explored", op)
+			return false
+		}
+	}
+	t0 := time.Now()
+	r := replaySlot(c, g, c.Pick(40, 400))
+	o := c.Out()
+	o.Traces += r.behaviours
+	o.Evaluations += r.steps
+	o.Distinct += r.behaviours
+	for _, v := range r.viol {
+		c.Violate(v.Key, v.Desc, v.Record)
+	}
+	for _, d := range r.drifts {
+		driftOnce(c, d)
+	}
+	for _, s := range r.infra {
+		c.Infra("%s", s)
+	}
+	if r.sample != nil {
+		c.Sample(r.sample)
+	}
+	c.SetExtra("slot_model", map[string]interface{}{"states": len(g.States), "edges": len(g.Edges), "edges_by_action": kinds})
+	c.SetExtra("slot_replay", map[string]interface{}{"behaviours": r.behaviours, "steps": r.steps, "consensus_nodes": r.nodes,
+		"blocks_held_by_the_node_compared": r.blocksSeen, "commits": r.commits, "vote_deliveries": r.retargets,
+		"blocks_that_replaced_a_complete_other_block_compared": r.replaced, "seconds": time.Since(t0).Seconds()})
+	if len(r.viol) == 0 && len(r.infra) == 0 {
+		for _, k := range []string{"proposal block after polka", "committed after +2/3 "} {
+			if r.replaced[k] == 0 {
+				c.Infra("proposal-slot replay: the scenario %q (a complete block replaced after a re-targeting) was not exercised: %v", k, r.replaced)
+				return false
+			}
+		}
+	}
+	// negative control: the same behaviour with a corrupted expectation (the node is said to
+	// hold block A after B's parts completed) must be noticed
+	if len(r.viol) == 0 && len(r.infra) == 0 && !slotControl(c, g) {
+		c.Infra("vacuous binding: the proposal-slot replay accepted a corrupted expectation")
+		return false
+	}
+	return len(r.infra) == 0
+}
+
+// slotControl: propose A, polka for B, B's parts; the expectation of the last step is
+// corrupted to "the node holds A".
+func slotControl(c *core.Ctx, g *mbt.Graph) bool {
+	mk := func(op, x string, i int, st slotState) slotStep {
+		return slotStep{Act: slotAct{Op: op, X: x, I: i}, To: st}
+	}
+	open := slotState{Phase: "open", Tot: []int{1, 2}, Target: "A", Have: []int{}, Blk: "none", Blkhash: "none", Step: "propose", Locked: "none", Polka: "none", Commit: "none", Committed: "none", Committedhash: "none", Dropped: "none"}
+	s1 := open
+	s1.Have, s1.Blk, s1.Blkhash, s1.Step = []int{1}, "A", "A", "prevote"
+	s2 := open
+	s2.Target, s2.Step, s2.Polka = "B", "precommit", "B"
+	s3 := s2
+	s3.Have = []int{1}
+	s4 := s2
+	s4.Have, s4.Blk, s4.Blkhash = []int{1, 2}, "A", "A" // corrupted: the truth is B
+	r := &slotReplay{seed: c.Seed, retargets: map[string]int{}, drifts: map[string]string{}, replaced: map[string]int{}}
+	r.runSteps([]slotStep{mk("propose", "A", 0, open), mk("part", "A", 1, s1), mk("polka", "B", 0, s2), mk("part", "B", 1, s3), mk("part", "B", 2, s4)}, c.Seed+4242, [2]int{3, 5})
+	noticed := len(r.viol) > 0 && len(r.infra) == 0
+	c.SetExtra("negative_control_slot", fmt.Sprintf("corrupted expectation noticed: %v", noticed))
+	return noticed
 }
 
 // ---------------------------------------------------------------------------------------
@@ -407,6 +497,8 @@ func runModelControls(c *core.Ctx) {
 		{"BlockParts", "BlockParts_noindex.cfg", "PartsAreOriginal"},
 		{"MC_BlockId", "BlockId_lostfield.cfg", "IdInjective"},
 		{"MC_BlockId", "BlockId_unordered.cfg", "HashBinds"},
+		{"ProposalSlot", "ProposalSlot_nopolkaclear.cfg", "SlotHoldsTarget"},
+		{"ProposalSlot", "ProposalSlot_nocommitclear.cfg", "SlotHoldsTarget"},
 	}
 	out := map[string]string{}
 	for _, k := range ctls {
